@@ -109,5 +109,10 @@ def run(ctx):
         prios = []
         for _ in range(rng.randint(1, 2)):
             k = rng.randint(0, min(4, len(names)))
-            prios.append({x: rng.choice([1, 1, -1, 2, -2, 3]) for x in rng.sample(names, k)})
+            if rng.random() < 0.1:
+                # priorities of large magnitude that differ by one (timestamps, sequence numbers): still different levels
+                B = rng.choice([2**53, 2**56, 2**60])
+                prios.append({x: rng.choice([B, B + 1, -(B + 1), B + 2, 3]) for x in rng.sample(names, k)})
+            else:
+                prios.append({x: rng.choice([1, 1, -1, 2, -2, 3]) for x in rng.sample(names, k)})
         do_case(ctx, {"ast": a, "prios": prios})
